@@ -26,6 +26,7 @@ class Model:
 
         self.obj = None
         self.obj_support = None
+        self.obj_set = None
         self.sign = 1
 
         self.primal = None
@@ -219,6 +220,7 @@ class Model:
             sup_model.st(item)
 
         self.obj = obj
+        self.obj_set = constraints
         self.obj_support = sup_model.do_math(primal=False, obj=False)
         self.sign = 1
         self.pupdate = True
@@ -265,6 +267,7 @@ class Model:
             sup_model.st(item)
 
         self.obj = obj
+        self.obj_set = constraints
         self.obj_support = sup_model.do_math(primal=False, obj=False)
         self.sign = - 1
         self.pupdate = True
@@ -369,6 +372,17 @@ class Model:
             else:
                 self.do_math(primal=True)
                 return self.rc_model.do_math(False, obj=True)
+
+        if self.obj_set is not None:
+            # random variables declared after minmax()/maxmin() belong to
+            # the default uncertainty set as well (unrestricted there)
+            num_rand = self.sup_model.vars[-1].last
+            if self.obj_support.linear.shape[0] < num_rand:
+                self.sup_model.reset()
+                for item in self.obj_set:
+                    self.sup_model.st(item)
+                self.obj_support = self.sup_model.do_math(primal=False,
+                                                          obj=False)
 
         self.rc_model.reset()
         if isinstance(self.obj, (Vars, VarSub, Affine, Convex, Real)):
